@@ -117,6 +117,12 @@ def run_item(item):
         if R.free_symbols & inter_syms or J.free_symbols & inter_syms:
             fail("intermediates-left", f"intermediate symbols remain: {sorted(map(str, (R.free_symbols | J.free_symbols) & inter_syms))[:5]}")
             continue
+        allowed = {ode[n].symbol for n in ref.states + ref.params} | {ode.t}
+        left = (R.free_symbols | J.free_symbols) - allowed
+        if left:
+            # e.g. a state derivative read by another expression and left as a bare symbol: the matrices are then not functions of the inputs
+            fail("unexpanded-symbols", f"symbols that are neither states, parameters nor time remain in rhs_matrix / jacobi_matrix: {sorted(map(str, left))[:5]}")
+            continue
         pts = models.model_grid(ref)
         pts = [pt for pt in pts if all(v in (-1.0, 0.5, 2.0, 0.25, 0.0, 3.0) for v in pt.values())]
         pts = pts[:: max(1, len(pts) // 27)][:27]
